@@ -5,6 +5,7 @@ import (
 
 	"fmt"
 	"math"
+	"reflect"
 	"strings"
 	"sync/atomic"
 	"unicode"
@@ -508,6 +509,12 @@ func (i *Interpreter) evaluateEq(left, right interface{}) (interface{}, error) {
 	if coerced {
 		// Compare coerced numeric values
 		return coercedLeft == coercedRight, nil
+	}
+
+	// Arrays and objects are Go slices and maps, which == cannot compare
+	// (it panics at run time); they are equal when they are deeply equal.
+	if lt, rt := reflect.TypeOf(left), reflect.TypeOf(right); (lt != nil && !lt.Comparable()) || (rt != nil && !rt.Comparable()) {
+		return reflect.DeepEqual(left, right), nil
 	}
 
 	// For non-numeric types, compare directly
